@@ -415,6 +415,12 @@ def gen_history(rng, profile, faults=False, sweep=False, hostile=False):
     if faults:
         add_env_faults(rng, b, files, vals)
 
+    # elfutils 0.188 leaks its 1 MiB decompression probe buffers when mmap
+    # fails on a file that is not ELF; that is not dwgrep's to release, so
+    # the combination is not generated (DESIGN.md 4.2).
+    if any(f.get("backing") for f in plan["files"]):
+        plan["knobs"]["deny_mmap"] = 0
+
     # ---- epilogue: every program once more, sequentially, in the laden process
     if not sweep:
         seen = set()
